@@ -62,7 +62,7 @@ def run_property(prop, tier, jobs):
     from pyvc.main import load_contracts, worker, functions_for
     REG = load_contracts()
     seed = int(os.environ.get('VERIF_SEED', '0') or 0)
-    os.makedirs(os.path.join(VERIF, 'evidence'), exist_ok=True)
+    os.makedirs(_evdir(), exist_ok=True)
     os.makedirs(os.path.join(VERIF, 'replays'), exist_ok=True)
     fns = functions_for(prop, REG)
     if not fns:
@@ -277,11 +277,16 @@ def run_property(prop, tier, jobs):
         'assumptions': TRUSTED + ['assumed: %s' % ASSUMED_DOC.get(a, a) for a in sorted(assumed)] + rc.get('assumptions', [])
         + ['contract of %s is assumed here (its body is not verified)' % q for q in sorted(pending_contracts)],
     }
-    with open(os.path.join(VERIF, 'evidence', '%s.json' % prop), 'w') as f:
+    with open(os.path.join(_evdir(), '%s.json' % prop), 'w') as f:
         json.dump(ev, f, indent=1)
     print('%s %s: %d/%d obligations discharged over %d functions; real-code cross-check: %s; %.1fs; exit %d' % (
         prop, tier, discharged, total, len(fns), rc.get('summary', {}).get('short', 'n/a'), wall, exit_code))
     return exit_code
+
+
+def _evdir():
+    # PYVC_EVIDENCE_DIR: only for tools/try_seeded_par.py (parallel runs on scratch copies must not overwrite the evidence of /repo)
+    return os.environ.get('PYVC_EVIDENCE_DIR') or os.path.join(VERIF, 'evidence')
 
 
 def _z3v():
